@@ -11,8 +11,14 @@ TC = "include/chaiscript/dispatchkit/type_conversions.hpp"
 CM = "include/chaiscript/language/chaiscript_common.hpp"
 
 HEADER = r'''
+/* a primitive that throws is a guard constructor that throws: the guard's destructor will NOT run, so the holder must be
+ * exactly as the primitive found it (ghost set right before each throw site by the extraction) */
+_Bool verif_throw_shape_ok;
+#define VERIF_THROW_OK(kind) (verif_throw_shape_ok)
 #include "verif_stl.h"
 int verif_thrown;
+int verif_depth0; _Bool verif_enabled0; size_t verif_saves0;
+#define VERIF_SHAPE_UNCHANGED (t_s->call_depth == verif_depth0 && t_saves->enabled == verif_enabled0 && t_saves->saves == verif_saves0)
 /* Stack_Holder: stacks = vector<vector<Scope>>, call_params = vector<vector<Boxed_Value>> seen as
  * lengths (names/values are opaque here; lookups are kernel K11) */
 typedef struct Stack_Holder { vvec2 stacks; vvec2 call_params; int call_depth; } Stack_Holder;
@@ -55,6 +61,10 @@ def de_rules():
     r.add("R9.stl.j", r"\bt_s\.call_params\.back\(\)\.clear\(\);", "vvec_clear(vvec2_back(&t_s->call_params));")
     r.add("R9.stl.j2", r"\bt_s\.call_params\.back\(\)\.(empty|size)\(\)", r"vvec_\1(vvec2_back(&t_s->call_params))")
     # save_function_params(Stack_Holder&, std::vector<Boxed_Value>&&): range-for over a vector seen as its length
+    r.add("R9.front", r"\bauto &saved = t_s\.call_params\.(front|back)\(\);", r"vvec *saved = vvec2_\1(&t_s->call_params);")
+    r.add("R9.bulk", r"\bsaved\.insert\(saved\.begin\(\), std::make_move_iterator\(t_params\.begin\(\)\), std::make_move_iterator\(t_params\.end\(\)\)\);",
+          "vvec_insert_front_n(saved, t_params);")
+    r.add("R7.shconst", r"\bStack_Holder::(\w+)\b", r"Stack_Holder_\1")
     r.add("R9.rangefor", r"for \(auto &&param : t_params\)", "for (size_t verif_i = 0; verif_i < t_params; ++verif_i)")
     r.add("R9.stl.k", r"\bt_s\.call_params\.back\(\)\.insert\(t_s\.call_params\.back\(\)\.begin\(\), std::move\(param\)\);",
           "vvec_insert_front_n(vvec2_back(&t_s->call_params), 1);")
@@ -175,9 +185,25 @@ def build(prop, tier="quick"):
               "void Dispatch_Engine_save_function_params(Stack_Holder *t_s, size_t t_params)"]
     kb.add("\n".join(p + ";" for p in protos))
     shs = dk.slice_block("struct Stack_Holder")
+    for nm, val in re.findall(r"static constexpr (?:int|size_t|std::size_t) (\w+) = (\d+);", chai2c.strip_comments(shs.body)):
+        kb.add("#define Stack_Holder_%s %s /* static constexpr member of Stack_Holder */" % (nm, val))
+
+    from common import throw_rule
+    thr = throw_rule({"runtime_error": "K_runtime_error", "range_error": "K_range_error", "eval_error": "K_eval_error"}, DK)
+
+    def throws_pre(cname, user_pre=None):
+        def f(b):
+            if user_pre:
+                b = user_pre(b)
+            b2, n = thr(b, cname)
+            if n:
+                b2 = b2.replace("VERIF_THROW(", "verif_throw_shape_ok = VERIF_SHAPE_UNCHANGED; VERIF_THROW(")
+            return b2
+        return f
 
     def emit(hdr, anchor, csig, cname, rules, after=0, pre=None, unique=True):
         sl = hdr.slice_function(anchor, after=after, unique=unique)
+        pre = throws_pre(cname, pre)
         c = C(cname)
         kb.emit_function(csig, sl, rules, c.fn, c.loops, cname, pre=pre, ghost=c.ghost)
 
